@@ -406,7 +406,15 @@ ORIGINS["e:a"] = _Origin(SRC["a"], EntireSourcePosition())
 from pyoak.origin import PositionSet, SourceSet  # noqa: E402
 
 ORIGINS["ss:empty"] = _Origin(SourceSet(()), PositionSet(()))  # merged from zero inputs: a falsy source
-EXTRA_ORIGIN_KEYS = ["c:a:0-0", "c:a:0-5@l2", "e:a", "ss:empty"]
+# file-backed sources (never read: the files do not exist; their Path fields go through the serializers' strategies)
+from pathlib import Path  # noqa: E402
+
+from pyoak.origin import FileSource, TextFileSource, ZippedFileSource, get_xml_origin  # noqa: E402,F401
+
+ORIGINS["x:f:/r"] = get_xml_origin(Path("data/in.xml"), "/r")
+ORIGINS["c:tf:0-3"] = CodeOrigin(TextFileSource(Path("src/a.txt")), get_code_range(0, 1, 0, 3, 1, 3))
+ORIGINS["c:zf:1-2"] = CodeOrigin(ZippedFileSource(Path("arch/all.zip"), Path("inner/b.txt")), get_code_range(1, 1, 1, 2, 1, 2))
+EXTRA_ORIGIN_KEYS = ["c:a:0-0", "c:a:0-5@l2", "e:a", "ss:empty", "x:f:/r", "c:tf:0-3", "c:zf:1-2"]
 
 # ---- values -----------------------------------------------------------------------------------------
 from pathlib import Path  # noqa: E402
